@@ -116,3 +116,69 @@ func VHBimapLong() {
 	c11lcheck(o, mo, n, "long bimap: the other one at the end")
 	vCover("bimap long done")
 }
+
+// VHBimapChurn: NCH (300, thorough 3000) alternating removals and additions keep a Bimap at
+// 100, 40 or 6 pairs, removing by key and by value in turn, so that anything counted over the
+// life of the map (removal counters, periodic repacking, tombstones) turns over many times. The
+// pair just removed and its neighbours are looked up in both directions after every step; the
+// whole map is compared with the model every 16 steps and at the end; one symbolic key and one
+// symbolic value are looked up at the end.
+func VHBimapChurn() {
+	vMapOrder(false)
+	nch := vParam("NCH")
+	size := []int{100, 40, 6}[vChoose("size", 3)]
+	var b Bimap[int, int]
+	m := &c11lm{fw: map[int]int{}, rv: map[int]int{}}
+	for i := 0; i < size; i++ {
+		b.Add(i, 1000+i)
+		m.add(i, 1000+i)
+	}
+	look := func(k int, what string) {
+		v, ok := b.GetForward(k)
+		mv, mok := m.fw[k]
+		vAssert(ok == mok && (!ok || v == mv), what+": GetForward agrees with the model")
+		rk, rok := b.GetReverse(1000 + k)
+		mk, mrok := m.rv[1000+k]
+		vAssert(rok == mrok && (!rok || rk == mk), what+": GetReverse agrees with the model")
+	}
+	lo := 0 // the live pairs are lo .. lo+size-1
+	for i := 0; i < nch; i++ {
+		if i%2 == 0 {
+			b.RemoveForward(lo)
+			m.removeForward(lo)
+		} else {
+			b.RemoveReverse(1000 + lo)
+			m.removeReverse(1000 + lo)
+		}
+		look(lo, "bimap churn: after a removal")
+		look(lo+1, "bimap churn: after a removal")
+		nk := lo + size
+		b.Add(nk, 1000+nk)
+		m.add(nk, 1000+nk)
+		look(nk, "bimap churn: after an addition")
+		lo++
+		vAssert(b.Len() == len(m.fw), "bimap churn: Len is the number of pairs")
+		if i%16 == 15 {
+			for k := lo - 2; k < lo+size+2; k++ {
+				look(k, "bimap churn")
+			}
+		}
+	}
+	cnt := 0
+	b.Range(func(k, v int) bool {
+		cnt++
+		mv, ok := m.fw[k]
+		vAssert(ok && mv == v, "bimap churn: Range reports live pairs only")
+		return true
+	})
+	vAssert(cnt == len(m.fw), "bimap churn: Range reports every pair once")
+	pk := vRange("pk", lo-3, lo+4)
+	v, ok := b.GetForward(pk)
+	mv, mok := m.fw[pk]
+	vAssert(ok == mok && (!ok || v == mv), "bimap churn: GetForward of any key agrees at the end")
+	pv := 1000 + vRange("pv", lo-3, lo+4)
+	k2, ok2 := b.GetReverse(pv)
+	mk, mok2 := m.rv[pv]
+	vAssert(ok2 == mok2 && (!ok2 || k2 == mk), "bimap churn: GetReverse of any value agrees at the end")
+	vCover("bimap churn done")
+}
